@@ -103,6 +103,11 @@ loop:
 				continue loop
 			}
 		}
+		if after.Contains(innerRing[i]) {
+			// a non-alphabet member that joins the alphabet is listed
+			// through the replacement above, do not list it twice
+			continue
+		}
 		result = append(result, innerRing[i])
 	}
 
